@@ -31,5 +31,10 @@ DslRejected(d) == \/ NReversing(d.methods) >= 2
 PmForms == {"strip_prefix", "strip_suffix", "find_skip", "rfind_skip", "trim_start_matches", "trim_end_matches"}
 Branching(f) == f \in {"strip_prefix", "strip_suffix", "find_skip", "rfind_skip"}
 PmDesc(f, pat, dflt) == [form |-> f, pat |-> pat, dflt |-> dflt]
-PmRejected(d) == d.pat # "literal" \/ (Branching(d.form) /\ ~d.dflt)
+\* pattern kinds: what the proc macro accepts is a string literal token (plain, raw), concat!(..) or stringify!(..)
+\* of such; everything else is a non-literal pattern - also when it merely *starts* with a string literal
+\* (range patterns "a"..="z", "a"..), which the pinned tree accepted (finding F10)
+LiteralPats    == {"literal", "raw", "concat", "stringify"}
+NonLiteralPats == {"ident", "expr", "range", "range_from", "char", "bytes", "int", "path", "binding", "ref"}
+PmRejected(d) == d.pat \notin LiteralPats \/ (Branching(d.form) /\ ~d.dflt)
 =============================================================================
